@@ -1982,9 +1982,15 @@ def relative_position_angle(alpha1, delta1, alpha2, delta2):
         raise TypeError("Invalid input types")
     da = alpha1 - alpha2
     da = da.rad()
+    dd = delta1 - delta2
+    dd = dd.rad()
     d1 = delta1.rad()
     d2 = delta2.rad()
-    p = atan2(sin(da), (cos(d2) * tan(d1) - sin(d2) * cos(da)))
+    # cos(d2)*tan(d1) - sin(d2)*cos(da) cancels for close bodies; it is equal to
+    # (sin(d1 - d2) + 2*sin(d2)*cos(d1)*sin(da/2)**2)/cos(d1), free of cancellation
+    sda2 = sin(da / 2.0)
+    p = atan2(sin(da) * cos(d1),
+              sin(dd) + 2.0 * sin(d2) * cos(d1) * sda2 * sda2)
     p = Angle(p, radians=True)
     return p
 
